@@ -155,4 +155,55 @@ PROPS = {
         ],
         "assumptions": ["as C03"],
     },
+    "C06": {
+        "modules": ["CasModel.Props.C06", "CasModel.Props.C18Store"],
+        "obligations": ["C06_put_never_writes_cas", "logAndApply_noCas", "checkpointScript_noCas", "C06_frame",
+                        "C06_rename_publishes", "C06_reader_stable", "C01_put_then_get", "sparesCas_frame_all"],
+        "full": ["C06_put_never_writes_cas", "C06_frame", "C06_rename_publishes"],
+        "slices": [("c06", 30, 1200), ("c04", 150, 4000)],
+        "trusted": [
+            "syntactic theorem over Store.lean's scripts: no event creates-empty, writes or truncates a cas/ path; the only events naming one are rename(staging→cas) and unlink(cas); frame theorem over Fs.lean: every other event leaves the bytes alone; a rename publishes the complete staged content",
+            "that the staged file is complete (BufWriter::into_inner flushed, and synced in Sync mode) before the rename: script order staging write → sync → rename, compared event by event with the real syscall trace",
+            "observed at intermediate instants: BLAKE3 of EVERY file under cas/ is recomputed at every crash image (kill before every mutating call), after every sequential step, and the CAS listing at every scheduling step of the concurrent slices",
+            "inode semantics (an open fd survives rename/unlink) is Fs.lean's assumption; exercised by readers drained after overwrite in the C05 schedules",
+        ],
+        "assumptions": ["collision-freeness is not needed here: the statement is about bytes vs the hash in the path"],
+    },
+    "C19": {
+        "modules": ["CasModel.Props.C19"],
+        "obligations": ["C19_gate", "preGate_frame_all", "openPre_preGate"],
+        "full": ["C19_gate"],
+        "slices": [("c19", 60, 1500)],
+        "trusted": [
+            "model: Store.lean openPre/settingsGate/openBody/openScript; JSON parsing abstracted to the canonical serde_json rendering of the settings triple (parseSettings accepts exactly that form; serde_json itself is trusted)",
+            "'a later correct open sees the data unchanged' = C02 on the unchanged files (C19_gate shows no file but LOCK is touched); compared byte for byte (directory dump before/after the rejected open)",
+            "pre-created directory tree unobservable: compared (API results equal with pre=0/1); not a theorem",
+        ],
+        "assumptions": ["the stored settings file is in serde_json's canonical form (written by the store itself or by the harness in that form)"],
+    },
+    "C11": {
+        "modules": ["CasModel.Props.C19"],
+        "obligations": ["C11_lock_first", "C11_flock_precedes", "preGate_frame_all"],
+        "full": ["C11_lock_first", "C11_flock_precedes"],
+        "slices": [("c11", 40, 800)],
+        "trusted": [
+            "proved: the loser of the lock issues only pre-gate events (top-level mkdirs, open of LOCK) and touches no other file; in every other open the flock precedes every non-pre-gate event",
+            "ASSUMED, not proved (OS semantics): flock(LOCK_EX|LOCK_NB) is exclusive per open file description across threads and processes, and is released when the last descriptor is closed or the process dies — exercised by the slice: racing opens from threads, a second handle, a second process, owner dropped / killed / kept alive only by an OrphanStats",
+            "at most one live handle: follows from flock exclusivity + C11_flock_precedes (a handle exists only after its flock succeeded and holds LOCK open for its lifetime)",
+        ],
+        "assumptions": ["kernel flock semantics; Arc keeps CasInner (and its LOCK fd) alive while clones or OrphanStats exist"],
+    },
+    "C15": {
+        "modules": ["CasModel.Props.C15"],
+        "obligations": ["C15_no_deadlock", "C15_lock_order", "step_lockInv", "progress", "stepPc_locks", "lockInv_init", "run_lockInv"],
+        "full": ["C15_no_deadlock"],
+        "slices": [("c15", 200, 6000)],
+        "trusted": [
+            "model: Conc.lean — one step = one thread runs between two yield points (before every acquisition of pending_intents/state and every blob rename/unlink); wal is acquired and released inside one step while both other locks are held",
+            "proved for all programs, thread counts and schedules: lock holders = threads inside critical sections; requests ordered intents < state; every reachable state with unfinished work has an enabled thread",
+            "not formalised: the bound on steps per operation and parking_lot's fairness (needed to turn 'no deadlock' into 'every call returns')",
+            "tie: every forced schedule on the real code (hooks at the same yield points) is replayed by the model step by step — parked point, real lock bits (parking_lot is_locked), index, intents and CAS digests must agree — and must run to completion under a watchdog",
+        ],
+        "assumptions": ["a caller that keeps an IndexReadGuard alive while writing from the same thread is outside the contract", "rwlock treated as exclusive (more blocking than reality)"],
+    },
 }
